@@ -656,6 +656,21 @@ def p_C05(ctx):
             c["reps"] = 4
             c["parse_q"] = 2
             yield c
+    # free text: every string TLC enumerates over Output!TextAtoms as the comment of a line of each kind and as a metadata
+    # value; the parser must read the text after the first '#' (':') as it is, blanks around it apart
+    st17 = ctx.mc("MC_C17", "MC_C17_quick.cfg" if ctx.quick else "MC_C17_thorough.cfg")
+    def strings():
+        for c in vlib.mc_cases(st17):
+            txt = "".join(TEXT_ATOMS.get(a, a) for a in c["atoms"])
+            comps = [{"kind": "USED", "id": 1, "cr": "GASNATURAL", "srv": "CAL", "src": "-", "v": [3, 1], "cm": txt},
+                     {"kind": "USED", "id": 1, "cr": "GASNATURAL", "srv": "ACS", "src": "-", "v": [1, 1], "cm": txt},
+                     {"kind": "PROD", "id": 0, "cr": "-", "srv": "-", "src": "EL_INSITU", "v": [2, 2], "cm": txt},
+                     {"kind": "OUT", "id": 1, "cr": "-", "srv": "CAL", "src": "-", "v": [2, 1], "cm": txt},
+                     {"kind": "OUT", "id": 1, "cr": "-", "srv": "ACS", "src": "-", "v": [1, 1], "cm": txt},
+                     {"kind": "AUX", "id": 1, "cr": "-", "srv": "-", "src": "-", "v": [1, 1], "cm": txt}]
+            yield {"src": {"comps": comps}, "meta": [["CTE_NOTA", txt], ["Otra", txt]], "atoms": c["atoms"],
+                   "parse_log": True, "parse_only": True, "reps": 1}
+    ctx.replay(strings(), "strings", "Trace_C05", keep=lambda c: {"atoms": c["atoms"], "src": c["src"]})
     ctx.replay(more(file_cases(None)), "files", "Trace_C05")
     ctx.replay(more(rnd(ctx, 300, 10000, None, integer=True, aux=True)), "random", "Trace_C05")
     ctx.extra.update(sched_stats(ctx))
